@@ -148,6 +148,21 @@ Definition only_more_inflight (a b : list (list val)) : bool :=
 
 Definition kf_deferred : bytes := tag "KF_C20_deferred_send_untracked".
 
+(* an observation without the two expiry fields of its messages (deadline, wire expiry): what the
+   finding KF_C20_irregular_expiry is allowed to change, and nothing else *)
+Definition erase_msg_expiry (v : val) : val :=
+  match v with
+  | VL [fh; pid; topic; payload; origin; created; _; _; pf; pff; mei; props] =>
+      VL [fh; pid; topic; payload; origin; created; VL []; VL []; pf; pff; mei; props]
+  | _ => v
+  end.
+Definition erase_expiry (o : list (list val)) : list (list val) :=
+  match o with
+  | [cl; i; cs; f; r] =>
+      [cl; i; cs; map (fun v => match v with VL [c; m] => VL [c; erase_msg_expiry m] | _ => v end) f; map erase_msg_expiry r]
+  | _ => o
+  end.
+
 Definition backend_of_index (n : N) : option backend :=
   match n with 0 => Some Badger | 1 => Some Pebble | 2 => Some Bolt | 3 => Some Redis | _ => None end.
 
@@ -181,6 +196,12 @@ Definition restart_engine (c : val) : val :=
               else if negb spec_ok then
                 match kf_name maxcap aws with
                 | Some k => if model_ok && mem_ok then verdict 3 tg nontriv [VB k; VN (first_diff 0 o1 o2)]
+                            else if KF_C20_irregular_expiry maxcap aws && model_ok &&
+                                    comps_eqb (erase_expiry o1) (erase_expiry o2) &&
+                                    comps_eqb (erase_expiry (observe_astate maxcap (arun aws))) (erase_expiry o1)
+                            (* also the memory of a later broker process differs from the recorded packets only in
+                               the expiry fields of such messages (they were restored once already) *)
+                            then verdict 3 tg nontriv [VB (tag "KF_C20_irregular_expiry"); VN (first_diff 0 o1 o2)]
                             else verdict 1 tg nontriv [VN (first_diff 0 o1 o2)]
                 | None => if superseded_delivery es && model_ok
                           then verdict 3 tg nontriv [VB (tag "KF_C20_takeover_delivery"); VN (first_diff 0 o1 o2)]
@@ -247,6 +268,9 @@ Definition crash_engine (c : val) : val :=
                 (if superseded_delivery es then verdict 3 tg nontriv [VB (tag "KF_C20_takeover_delivery"); VN 5]
                  else if held_back astate0 [] es && only_more_inflight o1 (observe_astate maxcap (arun (awrites_of es)))
                  then verdict 3 tg nontriv [VB kf_deferred; VN 5]
+                 else if KF_C20_irregular_expiry maxcap (awrites_of es) &&
+                         comps_eqb (erase_expiry (observe_astate maxcap (arun (awrites_of es)))) (erase_expiry o1)
+                 then verdict 3 tg nontriv [VB (tag "KF_C20_irregular_expiry"); VN 5]
                  else verdict 1 tg nontriv [VN 5; VN (first_diff 0 (observe_astate maxcap (arun (awrites_of es))) o1)])
               else if negb model_ok then verdict 2 tg nontriv [VN 1; VN (first_diff 0 (vals_of_rstate rs) snap2)]
               else if KF_C21_ack_before_forward es kn then verdict 3 tg nontriv [VB (tag "KF_C21_ack_before_forward")]
